@@ -103,7 +103,7 @@ EXTRA = {
  'C08': "Also: the queue-level barrier is the minimum over the groups' ACKNOWLEDGED positions (rule shared with C06); index<->sequence conversions of the replicator are inverse pairs (AppendIndex/ResetAppendIndex, ReplicaIndex/ResetReplicaIndex, ack without offset); every Ready exit of the handshake passed closeStream() (a stream of the failed period is never re-used). The leader's family log is reported expired only when every consumer group is drained: after a group answered non-empty no return of IsExpire can yield true (path-sensitive boolean constant propagation over the flag, whatever its form).",
  'C09': "Also: the flush life-cycle rules are shared with C10; the flush version handed to the resolver is the value read (under the lock) before the unlocked lookup. Schema flush marks persisted exactly what it wrote (genuine defect F16, fixed); the schema compaction merger accumulates each metric into a fresh object, or a reused one with every list Unmarshal appends to emptied first. PrepareFlush never installs an immutable store that Flush would skip and keep (F17, fixed).",
  'C10': "Also: every index reader reads the memory stores BEFORE it picks the snapshot (entries only move memory -> kv store; the opposite order was genuine defects F9/F11, fixed); the universe of NOT is read for the tag key the atomic filter reports, also when nothing matched; an atom that matches no value yields an empty set, not an error; prepare-flush/flush life cycle of the four memory stores. Group-by resolution asks every grouping scanner of every tag key (no break / return out of the scan); the dictionary create path re-checks mutable AND immutable store under the write lock (rule shared with C09). The run of container i in a persisted forward index starts after the runs of ALL containers before it (lookup table = running sum; F18, fixed); a persisted regex lookup narrows its candidate keys by the literal prefix only for an anchored expression (F19, fixed); no like-pattern is sliced out of range (F20, fixed); a swapped store is always drained (F17, fixed; shared with C09).",
- 'C11': "Also: memory is filtered before the file snapshot is taken; a not-found answer of one part (mutable / immutable memory database, files) never discards the other parts (genuine defect F12, fixed); flush writes one positional entry per field for every series (data or empty). The end marker of a field's write buffer only grows (F13, fixed); AggType.Aggregate receives (stored, incoming) in write order at every call site (F14, fixed); a single-field block is delivered under the query position of its field (F15, fixed); a source block hands out field data only for a held field id (rule shared with C03); the per-family aggregator covers [(base+start)/ratio, (base+end)/ratio], both bounds mapped by the emitter's own expression.",
+ 'C11': "Also: memory is filtered before the file snapshot is taken; a not-found answer of one part (mutable / immutable memory database, files) never discards the other parts (genuine defect F12, fixed); flush writes one positional entry per field for every series (data or empty). The end marker of a field's write buffer only grows (F13, fixed); AggType.Aggregate receives (stored, incoming) in write order at every call site (F14, fixed); a single-field block is delivered under the query position of its field (F15, fixed); a source block hands out field data only for a held field id (rule shared with C03); the per-family aggregator covers [(base+start)/ratio, (base+end)/ratio], both bounds mapped by the emitter's own expression. Memory data is delivered under the QUERY's field meta; the forward-only TSD cursor is asked for every slot and every value is consumed; the two directions of the memory series index are collected together (F27, fixed).",
  'C12': "Also: the tag-value lookups return only the errors of the dictionary read: an OR/NOT atom that matches nothing on one node is an empty set, so the node does not answer 'not found' for series matching the rest of the condition. A per-shard plan node whose operator can produce ErrNotFound (call graph, CHA through interfaces, only functions that can hand a non-nil error back) is created with NewPlanNodeWithIgnore; the automatic group-by interval is derived from the ALIGNED time range, so planning the root's statement again on an intermediate node yields the same interval.",
  'C14': "Also: FixedOffsetDecoder.Unmarshal re-initialises every field on every exit, error exits included (callers keep using a decoder whose Unmarshal failed); the long-lived snappy reader resets its buffers and the s2 reader on every exit of Uncompress. The empty-slot sentinel is +Inf at the producer and at every consumer test (-Inf is a value); FixedOffsetEncoder.max is raised per element inside the scan over all offsets (FromValues) / per added value (Add); GetBlock accepts start == end.",
  'C15': "Also: FindFiles, getOverlappingInputs and FindReaders visit every candidate file (no break/return out of the scan other than a failing exit). Snapshot.Load leaves its scan of the selected files only with an error; FixedOffsetDecoder.GetBlock accepts an empty range (a key stored with an empty value). A table builder becomes a table file whenever it holds a key: flush and compaction decide by Count(), never by the number of value bytes (F26, fixed).",
